@@ -51,15 +51,15 @@ def gen_x(rng, alg, eps, kinds):
 
 
 def regime(v, eps):
+    """magnitude class; 'cancel' is the zone eps < v <= sqrt(eps)/16 in which e^v - 1 (and 1 - cos v)
+    lose all their digits relative to the sqrt(eps) tolerance"""
     v = abs(v)
     if v == 0:
         return 'zero'
     if v <= eps:
         return 'le-eps'
-    if v < 1e3 * eps:
-        return 'eps..1e3eps'
-    if v < math.sqrt(eps):
-        return '1e3eps..sqrteps'
+    if v <= math.sqrt(eps) / 16:
+        return 'cancel'
     if v < 0.05:
         return 'small'
     return 'O(1)+'
@@ -69,7 +69,17 @@ def key_of(alg, dname, x, eps):
     rot = {'so3': x[0:3], 'se3': x[3:6], 'rxso3': x[0:3], 'sim3': x[3:6]}[alg]
     th = math.sqrt(sum(a * a for a in rot))
     sg = x[-1] if alg in ('rxso3', 'sim3') else 0.0
+    if alg == 'sim3' and regime(sg, eps) == 'cancel':
+        # one call site, one mechanism, whatever the rotation: rxso3_Ws with eps < |sigma| <= sqrt(eps)/16
+        return 'exp-accuracy:sim3:%s:rxso3_Ws:eps<|sigma|<=sqrt(eps)/16' % dname
     return 'exp-accuracy:%s:%s:theta=%s:sigma=%s' % (alg, dname, regime(th, eps), regime(sg, eps))
+
+
+def branch_of(alg, dname, x, eps):
+    rot = {'so3': x[0:3], 'se3': x[3:6], 'rxso3': x[0:3], 'sim3': x[3:6]}[alg]
+    th = math.sqrt(sum(a * a for a in rot))
+    sg = x[-1] if alg in ('rxso3', 'sim3') else 0.0
+    return '%s:%s:theta=%s:sigma=%s' % (alg, dname, regime(th, eps), regime(sg, eps))
 
 
 def tolerances(alg, out, eps):
@@ -119,33 +129,60 @@ def impl_matrix(pp, torch, alg, x, dtype):
     return [[float(M[i, j]) for j in range(n)] for i in range(n)], X.tensor().tolist()
 
 
+def mp_raw_reference(alg, x):
+    """60-digit reference of the raw group tensor: quaternion (sin(th/2)/th phi, cos(th/2)), scale e^sigma,
+    translation = last column of expm(generator)"""
+    import mpmath as mp
+    mp.mp.dps = 60
+    X = [mp.mpf(Fraction(v).numerator) / mp.mpf(Fraction(v).denominator) for v in x]
+    phi = {'so3': X[0:3], 'se3': X[3:6], 'rxso3': X[0:3], 'sim3': X[3:6]}[alg]
+    th = mp.sqrt(sum(a * a for a in phi))
+    f = mp.mpf(1) / 2 if th == 0 else mp.sin(th / 2) / th
+    q = [f * a for a in phi] + [mp.cos(th / 2)]
+    if alg == 'so3':
+        return q
+    if alg == 'rxso3':
+        return q + [mp.exp(X[3])]
+    E = mp_reference(alg, x)
+    t = [E[i, 3] for i in range(3)]
+    return t + q + ([mp.exp(X[6])] if alg == 'sim3' else [])
+
+
 def confirm(pp, torch, alg, dname, x):
-    """is the implementation's Exp(x) outside the property's tolerance w.r.t. the true exponential?"""
+    """is the implementation's Exp(x) outside the property's tolerance w.r.t. the true exponential?
+    Same component tolerances as the enclosure check (99 % of them, so that a proved excess is always
+    confirmed), measured against an independent 60-digit reference."""
     import mpmath as mp
     dtype = torch.float64 if dname == 'float64' else torch.float32
     eps = float(torch.finfo(dtype).eps)
     M, raw = impl_matrix(pp, torch, alg, x, dtype)
-    E = mp_reference(alg, x)
-    n = len(M)
-    # rotation+scale block: relative to its norm; translation block relative to its norm
-    blk = max(abs(E[i, j]) for i in range(3) for j in range(3))
-    err_rs = max(abs(mp.mpf(M[i][j]) - E[i, j]) for i in range(3) for j in range(3))
+    if any(not math.isfinite(v) for v in raw):
+        return 'non-finite output %s' % raw
+    ref = mp_raw_reference(alg, x)
     worst = []
-    if err_rs > 2 * K_EPS * eps * blk:
-        worst.append('rotation/scale block off by %.3g relative (tolerance %g eps)' % (float(err_rs / blk) / 1.0, 2 * K_EPS))
-    if n == 4:
-        tb = max(abs(E[i, 3]) for i in range(3))
-        et = max(abs(mp.mpf(M[i][3]) - E[i, 3]) for i in range(3))
-        if tb > 0 and et > 2 * K_SQRT * math.sqrt(eps) * tb:
-            worst.append('translation block off by %.3g relative (tolerance %g sqrt(eps) = %.3g)' % (float(et / tb), 2 * K_SQRT, 2 * K_SQRT * math.sqrt(eps)))
-        if tb == 0 and et > 0:
-            worst.append('translation block non-zero (%.3g) for zero translation input' % float(et))
+    names = {'so3': ['q'] * 4, 'se3': ['t'] * 3 + ['q'] * 4, 'rxso3': ['q'] * 4 + ['s'], 'sim3': ['t'] * 3 + ['q'] * 4 + ['s']}[alg]
+    for j, tol in tolerances(alg, raw, eps):
+        err = abs(mp.mpf(raw[j]) - ref[j])
+        if err > 0.99 * tol:
+            blockname = {'t': 'translation', 'q': 'rotation quaternion', 's': 'scale'}[names[j]]
+            worst.append('%s component %d off by %.3g (tolerance %.3g = %s)' % (blockname, j, float(err), tol,
+                         ('%d sqrt(eps) x |t|' % K_SQRT) if names[j] == 't' else ('%d eps' % K_EPS)))
     q = {'so3': raw[0:4], 'se3': raw[3:7], 'rxso3': raw[0:4], 'sim3': raw[3:7]}[alg]
     qn = math.sqrt(sum(Fraction(v) * Fraction(v) for v in q))
     if abs(qn - 1) > K_EPS * eps:
         worst.append('quaternion norm off by %.3g' % abs(qn - 1))
-    if any(not math.isfinite(v) for v in raw):
-        worst.append('non-finite output')
+    # the matrix the library builds from it vs expm of the generator (blockwise, relative)
+    E = mp_reference(alg, x)
+    n = len(M)
+    blk = max(abs(E[i, j]) for i in range(3) for j in range(3))
+    err_rs = max(abs(mp.mpf(M[i][j]) - E[i, j]) for i in range(3) for j in range(3))
+    if err_rs > 4 * K_EPS * eps * blk:
+        worst.append('rotation/scale block of matrix() off by %.3g relative' % float(err_rs / blk))
+    if n == 4:
+        tb = max(abs(E[i, 3]) for i in range(3))
+        et = max(abs(mp.mpf(M[i][3]) - E[i, 3]) for i in range(3))
+        if tb > 0 and et > 2 * K_SQRT * math.sqrt(eps) * tb:
+            worst.append('translation block of matrix() off by %.3g relative (sqrt(eps) = %.3g)' % (float(et / tb), math.sqrt(eps)))
     return '; '.join(worst) if worst else None
 
 
@@ -159,12 +196,15 @@ def run(ctx):
     kindsS = ['zero', 'tiny', 'eps', 'sqrteps', 'one', 'large']
     cases, meta = [], []
     plan = []
-    counts = {'so3': ctx.scale(150, 3000), 'se3': ctx.scale(120, 2500), 'rxso3': ctx.scale(80, 1500), 'sim3': ctx.scale(110, 2000)}
+    counts = {'so3': ctx.scale(60, 3000), 'se3': ctx.scale(40, 2500), 'rxso3': ctx.scale(30, 1500), 'sim3': ctx.scale(24, 2000)}
     for alg in ALGS:
-        # directed: every combination of rotation / scale regimes (translation generic), both dtypes
+        # directed: every combination of rotation / scale regimes (translation generic); dtypes alternate
+        # in the quick tier and are both taken in the thorough tier
+        k = 0
         for kr in kindsR:
             for ks in (kindsS if alg in ('rxso3', 'sim3') else ['zero']):
-                for dname in ('float64', 'float32'):
+                k += 1
+                for dname in (('float64', 'float32') if ctx.thorough else (('float64',) if k % 3 else ('float32',))):
                     plan.append((alg, dname, (kr, rng.choice(['one', 'large', 'tiny']), ks)))
         for _ in range(counts[alg]):
             plan.append((alg, 'float64' if rng.random() < 0.7 else 'float32',
@@ -189,14 +229,14 @@ def run(ctx):
             ctx.violation(key_of(alg, dname, x, eps), 'Exp returned a non-finite value %s' % o, dict(alg=alg, dtype=dname, x=x))
             continue
         i = len(meta)
-        br = '%s:%s:%s' % (alg, dname, key_of(alg, dname, x, eps).split(':', 3)[3])
+        br = branch_of(alg, dname, x, eps)
         ctx.case((alg, dname, tuple(x)), nontrivial=any(v != 0 for v in x), branch=br,
                  sample=dict(alg=alg, dtype=dname, x=x, impl=o) if i % 211 == 7 else None)
         meta.append(dict(alg=alg, dtype=dname, x=x, impl=o, kinds=kinds))
         epsl = '(1/4503599627370496)' if dname == 'float64' else '(1/8388608)'
         cases.append(dict(idx=i, expr='exp_l %s %d %s' % (epsl, ALGS.index(alg), rlist(x)),
                           comps=[(j, o[j], t) for j, t in tolerances(alg, o, eps)]))
-    r = run_enclosure('C01', 'Model.LieGroup Model.LieExp', cases, prec=220, per_file=24, timeout_goal=200)
+    r = run_enclosure('C01', 'Model.LieGroup Model.LieExp', cases, prec=220, per_file=ctx.scale(8, 30), timeout_goal=200)
     for name, out in r['broken']:
         ctx.obligation_broken('correspondence-file:' + name, out)
     ctx.notes.append('enclosure: %d proved within tolerance, %d proved outside, %d undecided' % (len(r['ok']), len(set(i for i, _ in r['bad'])), len(r['undecided'])))
@@ -224,7 +264,13 @@ def run(ctx):
     ctx.traces = len(r['ok'])
 
 
-KNOWN_WITNESS = {}
+# recorded witnesses of the listed findings: (alg, dtype, x)
+KNOWN_WITNESS = {
+    'exp-accuracy:sim3:float64:rxso3_Ws:eps<|sigma|<=sqrt(eps)/16':
+        ('sim3', 'float64', [1775.4265702961236, -2023.4098863027045, -581.1410674372639, 7.135500337766018e-26, -1.6038614529540755e-23, 7.710172192424853e-25, 5.995386517638057e-14]),
+    'exp-accuracy:sim3:float32:rxso3_Ws:eps<|sigma|<=sqrt(eps)/16':
+        ('sim3', 'float32', [1.0, -2.0, 0.5, 0.0, 0.0, 0.0, 3.0000001424923539e-07]),
+}
 
 
 def replay(ctx, c):
